@@ -31,6 +31,76 @@ CHECKS = {
             "Every returned solution must be contained in the closure reachable from the root requirements and accepted soft requirements through satisfied requirement edges.",
             "Trusts reach() in vcore/src/reference.rs; bounded universes.",
             "DESIGN.md 3/C05"),
+    "C06": ("metamorphic property-based testing: identical observation across repeated in-process solves and freshly started processes",
+            "exploration",
+            "Each generated case is solved 4 times in-process (fresh ahash keys per solver) and again in 2-3 fresh processes; solution order / conflict message / graphviz bytes must be identical.",
+            "Hash states and address layouts are sampled by repetition and re-execution, not enumerated.",
+            "DESIGN.md 3/C06"),
+    "C07": ("property-based testing on universes that are conflict-free by construction, against a first-choice closure oracle",
+            "exploration",
+            "Constructive generator guarantees the precondition (re-verified independently per case); solve must return exactly the greedy first-choice closure under any hints and async completion order.",
+            "Trusts first_choice_closure() in vcore/src/reference.rs; cases whose precondition check fails are skipped and counted.",
+            "DESIGN.md 3/C07"),
+    "C08": ("property-based testing with a reference-resolver precondition (exists a solution containing all first choices)",
+            "exploration",
+            "When the exhaustive reference finds a solution containing the first-ranked candidate of every root requirement, the returned solution must contain them all.",
+            "Trusts the reference search; cases with a false precondition are skipped and counted (reported in evidence).",
+            "DESIGN.md 3/C08"),
+    "C09": ("model-based property testing over the provider call history (causality, at-most-once, exactness)",
+            "exploration",
+            "The provider call log of one or two successive solves on one solver is checked as a history against a causality model; on conflict-free universes the fetched sets must be exactly the solution / the mentioned names.",
+            "No-hint providers only (as the property states); the call log is recorded by the harness's provider.",
+            "DESIGN.md 3/C09"),
+    "C10": ("schedule exploration: harness-owned executor, sampled and exhaustive completion orders, reference verdict",
+            "exploration",
+            "The harness owns every provider future; sampled schedules on rich cases plus exhaustive DFS over all interleavings of small cases; termination is decided structurally (deadlock = pending, unwoken, nothing outstanding).",
+            "Covers every interleaving a single-threaded executor can produce for the generated cases; exhaustive enumeration is capped per case (cap counted in evidence).",
+            "DESIGN.md 3/C10"),
+    "C11": ("schedule exploration with a quiescence invariant evaluated by the harness executor",
+            "exploration",
+            "At every quiescent point of every generated schedule, every get_candidates request implied by delivered dependency information must have been issued.",
+            "Quiescence = root future pending and not self-woken; all provider calls are gated in this check.",
+            "DESIGN.md 3/C11"),
+    "C12": ("fault injection: cancellation enumerated over every poll index (transient and sticky) of generated cases",
+            "fault_enumeration",
+            "For each generated case a dry run counts the cancellation polls; cancellation is then injected at every poll index (quick: up to 48 per case) in two modes; result, carried value and absence of later provider calls are checked.",
+            "The poll sequence of a case is deterministic for a fixed schedule (checked: a poll index that is never reached is reported).",
+            "DESIGN.md 3/C12"),
+    "C13": ("stateful (history) property testing of solver reuse against the reference resolver",
+            "exploration",
+            "Generated histories of 2-5 solve calls on one solver (different problems, unsat, cancelled in flight, sync/async); each step is checked against the reference verdict, validity, termination and no re-request of completed metadata.",
+            "Trusts the reference search and the call-log model.",
+            "DESIGN.md 3/C13"),
+    "C14": ("property-based testing: hard-problem reference verdict, validity with the soft exemption, inclusion rule on conflict-free constructions",
+            "exploration",
+            "Soft lists of all kinds on generated problems: the verdict must be that of the hard problem, results valid, and on conflict-free hard parts every compatible soft solvable (first-choice closure consistent with what was accepted so far) must be included.",
+            "The inclusion rule is only applied where its precondition is verified by the reference closure.",
+            "DESIGN.md 3/C14"),
+    "C15": ("exhaustive pair enumeration over generated reveal plans, against the reference resolver",
+            "exploration",
+            "For generated candidate counts (biased to powers of two +-1, up to 130) and reveal plans, every pair i<j (all pairs up to n=64, sampled above) must be Unsolvable and every single must be selectable.",
+            "Reveal plans cover root unions, eager (hinted) encoding and late exposure; not every partition/order is enumerated.",
+            "DESIGN.md 3/C15"),
+    "C16": ("differential property-based testing: snapshot provider vs live provider vs reference, round-trip and id-hygiene oracles",
+            "exploration",
+            "Sparse-id universes, generated seed sets, added requirements and serde round trips; verdict/validity differential against the live tables, order preservation, id hygiene after every add_package_requirement, structural round-trip equality.",
+            "favored/locked are stripped (not representable); union member order is not compared (the format stores a set).",
+            "DESIGN.md 3/C16"),
+    "C18": ("stateful property testing of Pool interning against reference maps with held references",
+            "exploration",
+            "Histories of intern/resolve/lookup calls across chunk boundaries are checked against HashMap/Vec models; raw copies of every returned reference are re-read after later insertions.",
+            "Reference stability is checked by re-reading through saved raw pointers (a dangling pointer is only detected if the bytes changed or the allocator faults; Miri/ASan runs are a planned extension).",
+            "DESIGN.md 3/C18"),
+    "C19": ("stateful property testing of Mapping against a BTreeMap model",
+            "exploration",
+            "Generated insert/unset/get/get_mut/iter/serde histories over dense, offset, sparse and chunk-edge id distributions, compared with BTreeMap after every step, in release and debug builds.",
+            "Ids below ~1000 (the structure allocates by max id).",
+            "DESIGN.md 3/C19"),
+    "C20": ("stateful property testing of SolverCache against the provider tables, incl. re-entrant queries from sort_candidates",
+            "exploration",
+            "Generated histories of direct cache calls are checked for partition, sort/rotation, idempotence (provider call log unchanged) and availability after every step; full solves with a probing sort_candidates check availability answers at call time.",
+            "Synchronous provider for the direct histories; concurrent duplicates of one key are covered by C10.",
+            "DESIGN.md 3/C20"),
 }
 
 NOT_YET = {
